@@ -23,7 +23,7 @@ if [ -n "$(git -C /repo status --porcelain)" ]; then echo "/repo not clean"; exi
 git -C /repo apply $src/seeddemo/patch.diff || exit 3
 cd /verif
 for c in $checks; do
-  for tier in quick thorough; do
+  for tier in ${SEEDEVAL_TIERS:-quick thorough}; do
     out=$(./check $c --tier $tier 2>&1); code=$?
     echo "  check $c $tier: exit=$code $(echo "$out" | grep -a '^VIOLATION' | head -1 | cut -c1-260)"
     [ $code -eq 1 ] && break
